@@ -8,13 +8,13 @@ import (
 	"errors"
 	"fmt"
 	"io"
-	"math"
 	"net"
 	"sync"
 	"time"
 
 	"github.com/pion/stun/v3"
 	"github.com/pion/transport/v4"
+	"github.com/pion/transport/v4/deadline"
 	"github.com/pion/turn/v5/internal/proto"
 )
 
@@ -31,19 +31,19 @@ func noDeadline() time.Time {
 // as specified by RFC 6062.
 // The allocation can be used to Dial/Accept relayed outgoing/incoming TCP connections.
 type TCPAllocation struct {
-	connAttemptCh chan *connectionAttempt
-	acceptTimer   *time.Timer
-	closeCh       chan struct{} // closed by Close: releases blocked Accept calls
-	closeOnce     sync.Once
+	connAttemptCh  chan *connectionAttempt
+	acceptDeadline *deadline.Deadline
+	closeCh        chan struct{} // closed by Close: releases blocked Accept calls
+	closeOnce      sync.Once
 	allocation
 }
 
 // NewTCPAllocation creates a new instance of TCPConn.
 func NewTCPAllocation(config *AllocationConfig) *TCPAllocation {
 	alloc := &TCPAllocation{
-		connAttemptCh: make(chan *connectionAttempt, 10),
-		acceptTimer:   time.NewTimer(time.Duration(math.MaxInt64)),
-		closeCh:       make(chan struct{}),
+		connAttemptCh:  make(chan *connectionAttempt, 10),
+		acceptDeadline: deadline.New(),
+		closeCh:        make(chan struct{}),
 		allocation: allocation{
 			client:      config.Client,
 			relayedAddr: config.RelayedAddr,
@@ -356,7 +356,7 @@ func (a *TCPAllocation) AcceptTCPWithConn(conn net.Conn) (*TCPConn, error) {
 		}
 
 		return dataConn, nil
-	case <-a.acceptTimer.C:
+	case <-a.acceptDeadline.Done():
 		return nil, &net.OpError{
 			Op:   "accept",
 			Net:  a.Addr().Network(),
@@ -375,13 +375,7 @@ func (a *TCPAllocation) AcceptTCPWithConn(conn net.Conn) (*TCPConn, error) {
 
 // SetDeadline sets the deadline associated with the listener. A zero time value disables the deadline.
 func (a *TCPAllocation) SetDeadline(t time.Time) error {
-	var d time.Duration
-	if t.Equal(noDeadline()) {
-		d = time.Duration(math.MaxInt64)
-	} else {
-		d = time.Until(t)
-	}
-	a.acceptTimer.Reset(d)
+	a.acceptDeadline.Set(t)
 
 	return nil
 }
